@@ -137,6 +137,105 @@ theorem single_flight_segment {y : Sys} (h : Reachable y) (as : List Act)
   rw [ok_count_segment y as hno] at this
   exact this
 
+/-! #### All signing requests, including failed ones
+
+The property text says "concurrent requests cause at most one signing request".  That is true of the
+SUCCESSFUL requests (`single_flight_segment`); a failed attempt is deliberately not remembered
+(`failure_not_sticky`), so with a failing CA every caller that finds the cache empty makes its own -
+serialised - request.  The full statement is false; the exact bound is "one plus the failed ones". -/
+
+/-- The action is a generateNewSecret step (CA reached), whatever the outcome. -/
+def isCall (y : Sys) : Act → Bool
+  | .step p _ =>
+    match y.procs p with
+    | .gCallCA _ => true
+    | _ => false
+  | .spawn _ _ => false
+
+/-- ... with a failing CA. -/
+def isErrCall (y : Sys) : Act → Bool
+  | .step p i =>
+    match y.procs p, i.ca with
+    | .gCallCA _, .err => true
+    | _, _ => false
+  | .spawn _ _ => false
+
+def callCount : Sys → List Act → Nat
+  | _, [] => 0
+  | y, a :: as => (if isCall y a then 1 else 0) + callCount (apply y a) as
+
+def errCount : Sys → List Act → Nat
+  | _, [] => 0
+  | y, a :: as => (if isErrCall y a then 1 else 0) + errCount (apply y a) as
+
+theorem isCall_split (y : Sys) (a : Act) :
+    (if isCall y a then 1 else 0) = (if isOkCall y a then 1 else 0) + (if isErrCall y a then 1 else 0) := by
+  cases a with
+  | spawn p k => simp [isCall, isOkCall, isErrCall]
+  | step p i =>
+    unfold isCall isOkCall isErrCall
+    cases hc : i.ca <;> cases hp : y.procs p <;> simp [hc, hp]
+
+theorem callCount_split (y : Sys) (as : List Act) : callCount y as = okCount y as + errCount y as := by
+  induction as generalizing y with
+  | nil => simp [callCount, okCount, errCount]
+  | cons a as ih =>
+    simp only [callCount, okCount, errCount]
+    rw [ih, isCall_split]; omega
+
+/-- `callCount` is what the CA sees: the CSRSign counter grows by exactly that much. -/
+theorem caCalls_run (y : Sys) (as : List Act) : (run y as).st.caCalls = y.st.caCalls + callCount y as := by
+  induction as generalizing y with
+  | nil => simp [run, callCount]
+  | cons a as ih =>
+    have hrun : run y (a :: as) = run (apply y a) as := rfl
+    rw [hrun, ih]
+    simp only [callCount]
+    have : (apply y a).st.caCalls = y.st.caCalls + (if isCall y a then 1 else 0) := by
+      cases a with
+      | spawn p k =>
+        simp only [apply, isCall]
+        unfold spawn; split
+        · split
+          · simp
+          · split
+            · split <;> simp
+            · simp
+          · simp
+        · simp
+      | step p i =>
+        simp only [apply]
+        unfold step isCall
+        simp only [finish]
+        split
+        all_goals (repeat' split)
+        all_goals (simp_all [clearWorkload, notifyWorkload])
+    omega
+
+/-- **Signing requests between two cache clears**: at most one more than the number of failed ones,
+    for every schedule. -/
+theorem signing_requests_segment {y : Sys} (h : Reachable y) (as : List Act)
+    (hno : (run y as).st.clears = y.st.clears) : callCount y as ≤ 1 + errCount y as := by
+  have := single_flight_segment h as hno
+  rw [callCount_split]; omega
+
+/-- The statement as the property text has it: at most one signing request between two clears. -/
+def AtMostOneSigningRequest : Prop :=
+  ∀ y as, Reachable y → (run y as).st.clears = y.st.clears → callCount y as ≤ 1
+
+private def errIn : Input := { ca := .err }
+
+/-- It is false: two callers, a CA that fails twice, two signing requests, no clear in between
+    (the real client does the same: stream `conc` with kErr > 0 shows `calls = kErr + 1`). -/
+theorem at_most_one_signing_request_witness : ¬ AtMostOneSigningRequest := by
+  intro hall
+  have h := hall (Sys.init ⟨1, 2⟩ ⟨0, 1⟩)
+    [.spawn 0 (.gen .workload), .step 0 errIn, .step 0 errIn, .step 0 errIn, .step 0 errIn, .step 0 errIn,
+     .spawn 1 (.gen .workload), .step 1 errIn, .step 1 errIn, .step 1 errIn, .step 1 errIn, .step 1 errIn]
+    ⟨⟨1, 2⟩, ⟨0, 1⟩, [], rfl⟩ (by decide)
+  revert h
+  decide
+
 /-- The skip branch of registerSecret ("already scheduled") is dead code: when a caller reaches the
     check, the cache is empty. -/
 theorem register_never_skips {y : Sys} (h : Reachable y) {p : Nat} {res : Res} {it : Item}
@@ -153,15 +252,18 @@ theorem mutex_exclusive {y : Sys} (h : Reachable y) {p q : Nat} (hp : holds (y.p
 
 /-! ### one_renewal_per_cert -/
 
-/-- Whatever certificate is cached, in any reachable state, its rotation task (same CreatedTime, same
-    ExpireTime) is in the queue: every certificate that is served has a renewal scheduled.  (No ghost
-    state is involved in this statement.) -/
+/-- Whatever certificate is cached, in any reachable state of any schedule, its rotation task (same
+    CreatedTime, same ExpireTime) is in the queue with a good delay AND IS STILL PENDING: it has not been
+    started (`fired = false`), or its callback is running and has not yet reached its clear (`tCheck` /
+    `tClear`, after which the certificate is no longer cached).  So every certificate that is served has
+    a renewal that is still going to happen.  (No ghost state is involved in this statement.) -/
 theorem cached_cert_has_rotation_scheduled {y : Sys} (h : Reachable y) {w : Item} (hw : y.st.workload = some w) :
-    ∃ en ∈ y.st.queue, en.created = w.created ∧ en.expire = w.expire ∧ 0 ≤ en.delay ∧
+    ∃ e en, y.st.queue[e]? = some en ∧ en.created = w.created ∧ en.expire = w.expire ∧
+      (en.fired = false ∨ ∃ p, y.procs p = .tCheck e ∨ y.procs p = .tClear e) ∧ 0 ≤ en.delay ∧
       (en.created ≤ en.expire → en.computedAt ≤ en.expire → en.computedAt + en.delay ≤ en.expire) := by
-  obtain ⟨en, hm, e1, e2⟩ := (inv_reachable h).hasTask w hw
-  have hs := (inv_reachable h).sched.1 en hm
-  exact ⟨en, hm, e1, e2, hs.1, hs.2⟩
+  obtain ⟨e, en, hq, e1, e2, hp⟩ := (inv_reachable h).pendingTask w hw
+  have hs := (inv_reachable h).sched.1 en (List.mem_of_getElem? hq)
+  exact ⟨e, en, hq, e1, e2, hp, hs.1, hs.2⟩
 
 /-- Bookkeeping with the ghost counter `stores` (incremented by the storing step only, see `queue_step`):
     the number of queue entries equals the number of store operations.  By itself this is a statement
@@ -619,6 +721,29 @@ theorem mergeAnchors_sorted (cfg roots : List Nat) : (mergeAnchors cfg roots).Pa
   induction (cfg ++ roots) with
   | nil => simp
   | cons a as ih => exact insertS_sorted ih
+
+/-- The ROOTCA hit path is two reads (the cache, then configTrustBundle) and other processes may run in
+    between.  First read: the roots the call carries are exactly those of the item cached at that instant. -/
+theorem rootca_first_read {y : Sys} {p : Nat} {l : Bool} {c : Item} (i : Input)
+    (hp : y.procs p = .gRead .root l) (hw : y.st.workload = some c) :
+    (step y p i).procs p = .gMerge c.root l ∧ (step y p i).st = y.st := by
+  simp [step, hp, hw]
+
+/-- Second read, in ANY reachable state (whatever happened since the first read - clears, new
+    certificates, bundle updates): the carried roots are non-empty, and the answer is the strictly
+    sorted union of them with the configured anchors AS THEY ARE NOW; nothing else is in it. -/
+theorem rootca_answer_interleaved {y : Sys} (h : Reachable y) {p : Nat} {roots : List Nat} {l : Bool} (i : Input)
+    (hp : y.procs p = .gMerge roots l) :
+    roots ≠ [] ∧
+    ∃ r, ((step y p i).procs p = .gUnlock r ∨ (step y p i).procs p = .gDone r) ∧ r.ok = true ∧
+      r.root = some (mergeAnchors y.st.cfg roots) ∧
+      (∀ x, x ∈ mergeAnchors y.st.cfg roots ↔ x ∈ y.st.cfg ∨ x ∈ roots) ∧
+      (mergeAnchors y.st.cfg roots).Pairwise (· < ·) := by
+  have hr := (inv_reachable h).roots.2 p
+  rw [hp] at hr
+  refine ⟨hr, { ok := true, root := some (mergeAnchors y.st.cfg roots) }, ?_, rfl, rfl,
+    fun x => mem_mergeAnchors, mergeAnchors_sorted _ _⟩
+  cases l <;> simp [step, hp, finish]
 
 /-- **root_includes_ca**: whatever path answers a `ROOTCA` request (cache hit, or a CA call), the
     returned bundle contains every root of the CA response behind the workload certificate that is
